@@ -396,22 +396,22 @@ func checkGaugeKey(c *Ctx, r *Report) {
 	lc := c.Fn(pkgBalancer, "(*LeastConnectionsSelector).Select")
 	if lc != nil {
 		for _, g := range withHelpers(lc, 2) {
-		eachInstr(g, func(in ssa.Instruction) {
-			lk, ok := in.(*ssa.Lookup)
-			if !ok {
-				return
-			}
-			if call, ok := boundValue(stripConv(lk.X)).(*ssa.Call); !ok || !call.Call.IsInvoke() || call.Call.Method.Name() != "GetConnectionStats" {
-				return
-			}
-			if ld, ok := lk.Index.(*ssa.UnOp); ok {
-				if fa, ok := ld.X.(*ssa.FieldAddr); ok {
-					if o, fld, _ := fieldOf(fa); isNamed(o, pkgDomain, "Endpoint") {
-						rField, rPos = fld, in.Pos()
+			eachInstr(g, func(in ssa.Instruction) {
+				lk, ok := in.(*ssa.Lookup)
+				if !ok {
+					return
+				}
+				if call, ok := boundValue(stripConv(lk.X)).(*ssa.Call); !ok || !call.Call.IsInvoke() || call.Call.Method.Name() != "GetConnectionStats" {
+					return
+				}
+				if ld, ok := lk.Index.(*ssa.UnOp); ok {
+					if fa, ok := ld.X.(*ssa.FieldAddr); ok {
+						if o, fld, _ := fieldOf(fa); isNamed(o, pkgDomain, "Endpoint") {
+							rField, rPos = fld, in.Pos()
+						}
 					}
 				}
-			}
-		})
+			})
 		}
 	}
 	key := "connection-gauge-key"
